@@ -283,15 +283,16 @@ def c08_6(ctx):
     # is_dependent table
     dep = {'PreprocessorCondition': False, 'ElifPreprocessorCondition': True, 'ElsePreprocessorCondition': True, 'EndifPreprocessorCondition': True}
     for cname, want in dep.items():
-        f = ctx.repo.cls(f'{COND}.{cname}').methods.get('is_dependent')
+        f = ctx.repo.cls(f'{COND}.{cname}').lookup('is_dependent')   # (own definition, a mixin listed before the base, or inherited)
         rr = returns(f) if f else []
         ctx.check(f is not None and len(rr) == 1 and unparse(rr[0].value) == str(want), f'chain:is_dependent:{cname}', f.site() if f else '-',
                   f'{cname}.is_dependent is {want}', '; '.join(unparse(r) for r in rr))
     for cname in ('IfPreprocessorCondition', 'IfdefPreprocessorCondition', 'MutePreprocessorCondition', 'UnmutePreprocessorCondition'):
         c = ctx.repo.cls(f'{COND}.{cname}')
         own = [k for k in c.mro() if 'is_dependent' in k.methods][0]
-        ctx.check(own.name == 'PreprocessorCondition', f'chain:is_dependent:{cname}', f'{c.module.relpath}:{c.node.lineno}',
-                  f'{cname} opens a new chain (is_dependent False)', f'is_dependent defined by {own.name}')
+        orr = returns(own.methods['is_dependent'])
+        ctx.check(len(orr) == 1 and unparse(orr[0].value) == 'False', f'chain:is_dependent:{cname}', f'{c.module.relpath}:{c.node.lineno}',
+                  f'{cname} opens a new chain (is_dependent False)', f'is_dependent defined by {own.name}: ' + '; '.join(unparse(r) for r in orr))
     # stack discipline in process_condition
     pc = ctx.repo.func(CS + '.process_condition')
     res = resolver(ctx, pc, inline=False)
